@@ -268,8 +268,13 @@ def check_gr_arm(run, pkg, name, dtype, ctype):
             okafter = gn[0].seq > max(e.seq for e in post.get("gA", gn))
             run.ob("R-ALG", fq, "scalar:gA_norm:order", okafter, "gA_norm is computed from the normalised g_A", "", witness=None if okafter else "raw counts used", loc=loc_of(it, gn[0]))
     else:
-        run.ob("R-DISPATCH", fq, f"{name}:no-gA_norm", not gn, "gA_norm is produced only for real scalar quantities", f"{len(gn)} assignments",
-               witness=None if not gn else f"{name} quantity gets a variance-normalised column", loc=fi.loc(), sound=True)
+        # definite only when the assignment is reached unconditionally in this configuration: a guard the configuration does not
+        # decide (a kind computed by a helper / looked up in a table) leaves it open whether this kind gets the column
+        base_guards = set(g_ for e_ in post.get("gA", []) for g_ in e_.guards)
+        open_guard = bool(gn) and all(any(g_ not in base_guards for g_ in e_.guards) for e_ in gn)
+        v_gn = True if not gn else (None if open_guard else False)
+        run.ob("R-DISPATCH", fq, f"{name}:no-gA_norm", v_gn, "gA_norm is produced only for real scalar quantities", f"{len(gn)} assignments" + (" under an undecided test" if open_guard else ""),
+               witness=None if v_gn is not False else f"{name} quantity gets a variance-normalised column", loc=fi.loc(), sound=True)
 
 
 def check_weight(run, it, fq, name, w, cond_now, ivar, ev):
